@@ -60,7 +60,8 @@ def typings(items, rng):
         if it[0] == 'k':
             ev += [('d', it[1]), ('u', it[1])]
         elif it[0] == 'mod':
-            m = {'S': 'lsft', 'C': 'lctl', 'A': 'lalt', 'RA': 'ralt', 'M': 'lmet'}[it[1]]
+            # either side of shift / ctrl / meta counts as the modifier of a chorded sequence
+            m = rng.choice({'S': ['lsft', 'rsft'], 'C': ['lctl', 'rctl'], 'A': ['lalt'], 'RA': ['ralt'], 'M': ['lmet', 'rmet']}[it[1]])
             ev.append(('d', m))
             for k in it[2]:
                 ev += [('d', k), ('u', k)]
@@ -118,7 +119,7 @@ def gen_cases(rng, tier):
         mode = rng.choice(['hidden-suppressed', 'hidden-delay-type', 'visible-backspaced'])
         T = rng.choice([20, 100])
         always = rng.random() < 0.15
-        src = ['a'] + POOL + ['lsft', 'lctl', 'lalt', 'ralt', 'lmet']
+        src = ['a'] + POOL + ['lsft', 'lctl', 'lalt', 'ralt', 'lmet', 'rsft', 'rctl', 'rmet']
         cfg = '(defcfg sequence-timeout %d sequence-input-mode %s%s)\n(defsrc %s)\n(deflayer l0 %s)\n(defvirtualkeys %s)\n(defseq %s)' % (
             T, mode, ' sequence-always-on yes' if always else '', ' '.join(src), ' '.join(['sldr'] + src[1:]),
             ' '.join('v%d %s' % (j, VK_OUT[j]) for j in range(nseq)),
@@ -147,7 +148,7 @@ def gen_cases(rng, tier):
         h += ['t%d' % (T + 30), 'q']
         # an O-(...) group is typed key by key: while its first keys go down they are ordinary presses, so a shorter sequence made of
         # those very keys (plain) completes first (known finding plain-sequence-shadows-overlap-group)
-        presses = [k for d, k in ev if d == 'd']
+        presses = [{'rsft': 'lsft', 'rctl': 'lctl', 'rmet': 'lmet'}.get(k, k) for d, k in ev if d == 'd']
 
         def flat_orders(sq):
             outs = [[]]
